@@ -107,4 +107,28 @@ example : variantInfos (some [.ref, .refMut]) [none, some [.ignore]] =
     [{ enabled := true, owned := true, ref := true, refMut := true },
      { enabled := false, owned := true, ref := true, refMut := true }] := by decide
 
+/-! ### Which variants take part (`State::new_impl`) -/
+
+/-- Without an enum-level attribute a variant without an attribute of its own is enabled iff the
+**first attributed** variant (whatever its attribute says, `ignore` included) does not enable
+itself: opt-out enums (`ignore` first) keep the rest, opt-in enums (an enabling attribute first)
+drop it. -/
+theorem unattributed_variant_enabled (vas : List (Option (List Param))) (i : Nat)
+    (h : vas[i]? = some none) :
+    (variantInfos none vas)[i]?.map (·.enabled)
+      = some (match (vas.map metaOf).find? (fun m => m.enabled.isSome) with
+              | some m => !(m.enabled.getD true)
+              | none => true) := by
+  simp only [variantInfos, defaults, List.getElem?_map, h, Option.map_some, metaOf, Meta.intoFull, Option.getD_none]
+  cases (List.map metaOf vas).find? (fun m => m.enabled.isSome) <;> rfl
+
+/-- `#[x(ignore)] A, B, #[x(owned)] C, D`: the first attribute is an `ignore`, so `B` and `D` stay
+enabled although a later variant carries an enabling attribute (the defaults come from the first
+attribute of any kind, not from the first enabling one). -/
+theorem ignore_first_keeps_unattributed (rest : List (Option (List Param))) (i : Nat)
+    (h : (some [Param.ignore] :: rest)[i]? = some none) :
+    (variantInfos none (some [Param.ignore] :: rest))[i]?.map (·.enabled) = some true := by
+  rw [unattributed_variant_enabled _ i h]
+  simp [metaOf]
+
 end Dm.Props.C11
